@@ -336,20 +336,17 @@ func c03RunCase(r *vr.Report, cs c03Case) (key, what string, rounds int32) {
 				re := cs.Hists[i][pos[i]]
 				ev := dsEv{K: re.K, N: uint8(i)}
 				if re.K == dsDeliver {
-					s.w.mtx.Lock()
-					id, ok := s.w.msgByKey[re.Key]
-					s.w.mtx.Unlock()
-					if !ok && s.w.ensureVoteByKey(re.Key) {
-						s.w.mtx.Lock()
-						id, ok = s.w.msgByKey[re.Key]
-						s.w.mtx.Unlock()
-					}
+					id, ok := dsResolve(s.w, re)
 					if !ok {
 						break // produced later by another node
 					}
 					ev.M = int32(id)
 				}
-				s.e.apply(nodes[i], ev)
+				for _, m := range s.e.apply(nodes[i], ev) {
+					if s.e.onPublish != nil {
+						s.e.onPublish(s.w.msg(int(m)), i) // creates what the publication makes available (echo votes, forged votes for the block)
+					}
+				}
 				pos[i]++
 				progress = true
 			}
@@ -357,7 +354,7 @@ func c03RunCase(r *vr.Report, cs c03Case) (key, what string, rounds int32) {
 	}
 	for i := range nodes {
 		if pos[i] < len(cs.Hists[i]) {
-			panic("c03: local history cannot be replayed (message never produced): " + cs.Hists[i][pos[i]].Key)
+			panic(fmt.Sprintf("c03: local history cannot be replayed (message never produced): %s cfg=%+v node=%d hist=%v all=%v", cs.Hists[i][pos[i]].Key, cs.Cfg, i, cs.Desc[i], cs.Desc))
 		}
 	}
 	return c03Suffix(s, nodes, cs.Suffix, r)
@@ -435,10 +432,8 @@ func TestVerifC03(t *testing.T) {
 						l := s.e.local(lid)
 						var h []dsRepEv
 						for _, ev := range l.hist {
-							re := dsRepEv{K: ev.K, N: uint8(i)}
-							if ev.K == dsDeliver {
-								re.Key = s.w.msg(int(ev.M)).Key
-							}
+							re := dsRepOf(s.w, ev)
+							re.N = uint8(i)
 							h = append(h, re)
 						}
 						cs.Hists = append(cs.Hists, h)
